@@ -240,3 +240,45 @@ def overlap_family(tails: List[List[dict]], thin: int = 1) -> List[dict]:
 
 
 DRAIN = [{"op": "gate_all", "place": "inline"}, {"op": "settle"}, {"op": "gate_all", "place": "inline"}, {"op": "settle"}]
+
+
+def close_overlap_family(thin: int = 1, ops=("close", "flush")) -> List[dict]:
+    """gather_and_close() / flush() blocked on a task that sits in a slow callback while another task fails, returns or is cancelled:
+
+        spawn 3 gated workers (one of them raises) ; tick 3 ; first task ends or is cancelled -> slow callback ; tick a ;
+        close/flush (actor) ; tick b ; gate k ; tick c ; gate k2 ; settle ; drain
+
+    for a, b in 0..2, c in 0..1, k in 0..3, k2 in 0..2 (which of the remaining workers / the callback is let go, in which order), both
+    return_exceptions values, eager and task placement."""
+    cases: List[dict] = []
+    slow = {"async": True, "wait": True}
+    for size in (3, None):
+        for first in ("gate", "cancel"):
+            for ends in ([["ret"], ["raise"], ["ret"]], [["raise"], ["ret"]], [["ret"], ["ret"], ["raise"]]):
+                sp = {"op": "spawn", "pool": 0, "kind": "apply", "num": 3, "place": "inline", "ecb": dict(slow), "ccb": dict(slow),
+                      "worker": {"script": [["wait"]], "fname": "w", "ends": ends}}
+                for op in ops:
+                    for re_ in (False, True):
+                        for place in ("eager", "task"):
+                            for a, b, c in itertools.product(range(3), range(3), range(2)):
+                                for k in range(4):
+                                    for k2 in range(3):
+                                        steps = [copy.deepcopy(sp), {"op": "tick", "k": 3}]
+                                        steps.append({"op": "gate", "k": 0, "place": "inline"} if first == "gate" else
+                                                     {"op": "cancel", "pool": 0, "refs": [["live", 0]], "place": "inline"})
+                                        if a:
+                                            steps.append({"op": "tick", "k": a})
+                                        st_ = {"op": op, "pool": 0, "place": place}
+                                        if re_:
+                                            st_["re"] = True
+                                        steps.append(st_)
+                                        if b:
+                                            steps.append({"op": "tick", "k": b})
+                                        steps.append({"op": "gate", "k": k, "place": "inline"})
+                                        if c:
+                                            steps.append({"op": "tick", "k": c})
+                                        steps.append({"op": "gate", "k": k2, "place": "inline"})
+                                        steps.append({"op": "settle"})
+                                        steps.extend(copy.deepcopy(DRAIN))
+                                        cases.append({"pools": [{"cls": "TaskPool", "size": size}], "steps": steps})
+    return cases[::thin] if thin > 1 else cases
